@@ -3,7 +3,7 @@
 #  1. translation sanity: the repository's own tests must pass on the instrumented scratch copy with
 #     the simulator hooks off (failure => exit 2, the instrumentation cannot be trusted);
 #  2. data-race clause: the UNINSTRUMENTED tree built with -race under a free-running stress
-#     (not schedule-controlled; see race/main.go). A reported race or a response matching no single
+#     (not schedule-controlled; see sim/stress.go). A reported race or a response matching no single
 #     state is a violation (exit 1, VIOLATION line, report kept under replays/C07/).
 # Writes $2/companions.json, which the simulator embeds into evidence/C07.json.
 set -u
@@ -24,18 +24,18 @@ else
   sanity="passed: go test ./... on the instrumented copy, hooks off"
 fi
 
-# 2. race stress
-sed "s#=> /repo#=> $REPO#" "$VERIF/race/go.mod" >"$S/race.mod"; cp "$VERIF/race/go.sum" "$S/race.sum"
-(cd "$VERIF/race" && go build -modfile="$S/race.mod" -race -o "$S/racestress" .) >"$S/race-build.log" 2>&1 || {
+# 2. race stress: the simulator binary itself (generators, probe suites) built with -race against the UNINSTRUMENTED tree
+sed "s#=> /repo#=> $REPO#" "$VERIF/sim/go.mod" >"$S/race.mod"; cp "$VERIF/sim/go.sum" "$S/race.sum"
+(cd "$VERIF/sim" && go build -modfile="$S/race.mod" -race -o "$S/racestress" .) >"$S/race-build.log" 2>&1 || {
   echo "check: BUILD FAILED (race companion; exit 2)"; cat "$S/race-build.log"; exit 2; }
-GORACE="halt_on_error=1 exitcode=66" "$S/racestress" -d "$dur" -seed "$seed" -out "$S/race.json" >"$S/race.out" 2>"$S/race.err"
+VERIF_SEED=$seed GORACE="halt_on_error=1 exitcode=66" "$S/racestress" stress -d "$dur" -out "$S/race.json" >"$S/race.out" 2>"$S/race.err"
 rc=$?
 status=0
 RD=${VERIF_REPLAY_DIR:-$VERIF/replays}/C07
 case $rc in
   0) verdict="no data race reported, every response matched a single state" ;;
   66) mkdir -p "$RD"; f="$RD/race-$seed.txt"
-      { echo "# data race reported by the Go race detector; reproduce with:"; echo "#   ./check C07 $tier   (or: cd race && go build -race -o /tmp/rs . && GORACE=halt_on_error=1 /tmp/rs -d $dur -seed $seed)"; cat "$S/race.err"; } >"$f"
+      { echo "# data race reported by the Go race detector; reproduce with:"; echo "#   ./check C07 $tier   (or: cd sim && go build -race -o /tmp/rs . && VERIF_SEED=$seed GORACE=halt_on_error=1 /tmp/rs stress -d $dur)"; cat "$S/race.err"; } >"$f"
       echo "  class=data-race: $(grep -m1 -A3 'WARNING: DATA RACE' "$S/race.err" | tr '\n' ' ' | cut -c1-300)"
       echo "VIOLATION property=C07 replay=$f"; verdict="DATA RACE reported"; status=1 ;;
   1) mkdir -p "$RD"; f="$RD/race-mismatch-$seed.txt"; cat "$S/race.out" >"$f"
